@@ -105,7 +105,8 @@ var cfgFlagOrder = []string{"old", "new", "app-name", "app-version", "granularit
 var cfgBaseNames = []string{"proj", "my-app", "app+1", "a&b", "x<y>", "it's", "two words", `q"uote`}
 
 // refs that exist in every generated project (all at the single commit)
-var cfgRefs = []string{"HEAD", "main", "feature/c++", "v1.0.0+build"}
+// "20240915" (a date tag) and "deadbee" (a branch) are ref names made of hex digits only
+var cfgRefs = []string{"HEAD", "main", "feature/c++", "v1.0.0+build", "20240915", "deadbee"}
 
 const (
 	cfgFirst    = "abcdefghijklmnopqrstuvwxyzABCDEFGHIJKLMNOPQRSTUVWXYZ0123456789_./"
@@ -368,7 +369,7 @@ func (r *cfgRunner) mkProject(dir string) error {
 		return err
 	}
 	for _, a := range [][]string{{"init", "-q", "-b", "main", "."}, {"add", "go.mod", "main.go"}, {"commit", "-q", "-m", "init"},
-		{"branch", "feature/c++"}, {"tag", "v1.0.0+build"}} {
+		{"branch", "feature/c++"}, {"tag", "v1.0.0+build"}, {"tag", "20240915"}, {"branch", "deadbee"}} {
 		if out, err := r.sh(dir, "git", a...); err != nil {
 			return fmt.Errorf("git %v: %v: %s", a, err, out)
 		}
@@ -423,6 +424,19 @@ func fileNewBranch(text string) string {
 // does not truncate leaves it behind
 var preExisting = "# pre-existing file\nappName: keep-me\n" + strings.Repeat("# filler line of a previous, longer configuration\n", 400) + "threads: 3\nzzz: [unterminated\n"
 
+// preValid: a complete, loadable previous configuration (a re-initialisation must not take
+// anything over from it)
+var preValid = "# pre-existing file\nappName: keep-me\nappVersion: previous-1.0\noldBranch: main\nnewBranch: HEAD\ngoatPackageName: oldgoat\ngoatPackageAlias: oldgoat\n" +
+	"goatPackagePath: old/goat\ngranularity: func\ndiffPrecision: 2\nthreads: 3\nrace: true\ndataType: count\nskipNestedModules: false\n" +
+	strings.Repeat("# filler line of a previous, longer configuration\n", 400)
+
+func (c *cfgCase) pre() string {
+	if c.mut%2 == 1 {
+		return preValid
+	}
+	return preExisting
+}
+
 func splitLinesNL(s string) []string { return strings.Split(s, "\n") }
 
 func (r *cfgRunner) run(worker int, c *cfgCase) (cfgResult, error) {
@@ -432,7 +446,7 @@ func (r *cfgRunner) run(worker int, c *cfgCase) (cfgResult, error) {
 	file := filepath.Join(dir, "goat.yaml")
 	os.Remove(file)
 	if c.exists {
-		if err := os.WriteFile(file, []byte(preExisting), 0644); err != nil {
+		if err := os.WriteFile(file, []byte(c.pre()), 0644); err != nil {
 			return res, err
 		}
 	}
@@ -486,7 +500,7 @@ func (r *cfgRunner) run(worker int, c *cfgCase) (cfgResult, error) {
 	res.initImpl = "reject " + reason
 	// rejected ⇒ nothing written, a pre-existing file untouched
 	if c.exists {
-		if rerr != nil || string(data) != preExisting {
+		if rerr != nil || string(data) != c.pre() {
 			res.initImpl += " file-written"
 		}
 	} else if rerr == nil {
